@@ -43,6 +43,7 @@ def dispatch (line : String) : String :=
     | some "fsm" => S17.runC17 fields obs
     | some "prog" => S06.runC06 fields obs
     | some "cdec" => S06.runCdec fields obs
+    | some "plan" => S06.runPlan fields obs
     | some "doc" => S10.runC10 fields obs
     | some "fmt" => S08.runC08 fields obs
     | some "cur" => S09.runC09 fields obs
